@@ -1,6 +1,9 @@
 package work_package
 
 import (
+	"bytes"
+	"sort"
+
 	"github.com/New-JAMneration/JAM-Protocol/PVM"
 	"github.com/New-JAMneration/JAM-Protocol/internal/blockchain"
 	"github.com/New-JAMneration/JAM-Protocol/internal/types"
@@ -80,16 +83,48 @@ func (p *WorkPackageController) Process() (types.WorkReport, error) {
 		return types.WorkReport{}, err
 	}
 	cs := blockchain.GetInstance()
-	newDict, err := cs.SetHashSegmentMapWithLimit(workPackageHash, types.OpaqueHash(report.PackageSpec.ExportsRoot))
+	// (14.11) l: the segment roots of exactly the work-packages that the imports name by hash, taken from the
+	// dictionary the imports were resolved with (before this package's own entry is recorded), ordered by hash
+	dict, err := cs.GetHashSegmentMap()
 	if err != nil {
 		return types.WorkReport{}, err
 	}
-	lookup := convertMapToLookup(newDict)
-	report.SegmentRootLookup = lookup
+	report.SegmentRootLookup = segmentRootLookupFor(&workPackage, dict)
+	if _, err := cs.SetHashSegmentMapWithLimit(workPackageHash, types.OpaqueHash(report.PackageSpec.ExportsRoot)); err != nil {
+		return types.WorkReport{}, err
+	}
 
 	// check if work report is same between all the guarantors
 
 	return report, nil
+}
+
+// segmentRootLookupFor builds the report's segment-root lookup dictionary: one entry per distinct work-package
+// hash used as an import tree root (H-boxplus) that the node's dictionary resolves, sorted by hash so that every
+// guarantor encodes the same report.
+func segmentRootLookupFor(wp *types.WorkPackage, dict map[types.OpaqueHash]types.OpaqueHash) types.SegmentRootLookup {
+	lookup := make(types.SegmentRootLookup, 0)
+	seen := make(map[types.OpaqueHash]struct{})
+	for _, item := range wp.Items {
+		for _, spec := range item.ImportSegments {
+			root, ok := dict[spec.TreeRoot]
+			if !ok {
+				continue
+			}
+			if _, dup := seen[spec.TreeRoot]; dup {
+				continue
+			}
+			seen[spec.TreeRoot] = struct{}{}
+			lookup = append(lookup, types.SegmentRootLookupItem{
+				WorkPackageHash: types.WorkPackageHash(spec.TreeRoot),
+				SegmentTreeRoot: root,
+			})
+		}
+	}
+	sort.Slice(lookup, func(i, j int) bool {
+		return bytes.Compare(lookup[i].WorkPackageHash[:], lookup[j].WorkPackageHash[:]) < 0
+	})
+	return lookup
 }
 
 func (p *WorkPackageController) prepareInputs() (types.WorkPackage, PVM.ExtrinsicDataMap, types.ExportSegmentMatrix, []byte, types.OpaqueHash, error) {
